@@ -1114,8 +1114,10 @@ def skymask(invvar, andmask, ormask=None, ngrow=2):
     redmonster = sdss_flagval('SPPIXMASK', 'REDMONSTER')
     # brightsky = sdss_flagval('SPPIXMASK', 'BRIGHTSKY')
     if ormask is not None:
-        badmask = badmask | ((ormask & badskychi) != 0)
-        badmask = badmask | ((ormask & redmonster) != 0)
+        ormask64 = (ormask.astype(np.uint64) &
+                    np.uint64(2**(8*ormask.dtype.itemsize) - 1))
+        badmask = badmask | ((ormask64 & badskychi) != 0)
+        badmask = badmask | ((ormask64 & redmonster) != 0)
         # badmask = badmask | ((andmask & brightsky) != 0)
     if ngrow > 0:
         width = 2*ngrow + 1
